@@ -67,11 +67,14 @@ def run_shard(spec, R):
     import darsia
 
     from vf.gen.images import rng_for
+    from vf.snapshots import snap as snap_of
 
     for n in range(spec["n"]):
         if not R.want(["case", n]):
             continue
         rng = rng_for(spec["seed"], "C11", spec["shard"], n)
+
+        meta_of, keep_alive = {}, []
 
         def image(shape, dims=None, payload="scalar", dtype=np.float64, origin=None):
             dim = len(shape)
@@ -90,8 +93,13 @@ def run_shard(spec, R):
                 conv = born.astype(dtype)
                 conv.img = arr.copy()
                 R.count("image_born_as_uint8_then_converted")
+                meta_of[id(conv)] = snap_of(conv.metadata())
+                keep_alive.append(conv)
                 return conv, arr.copy(), dims
-            return darsia.Image(arr, **kw), arr.copy(), dims
+            made = darsia.Image(arr, **kw)
+            meta_of[id(made)] = snap_of(made.metadata())  # deep snapshot of the metadata (incl. the dimensions list) at birth
+            keep_alive.append(made)
+            return made, arr.copy(), dims
 
         # ================================================================ resize
         for rep in range(4):
@@ -190,7 +198,7 @@ def run_shard(spec, R):
                 i_f, _ = integral(fine.img, dims, dim)
                 R.check(fine.img.shape[:dim] == tuple(s * 2**levels for s in base) and bool(np.all(np.abs(i_f - i_in) <= rt * np.maximum(mag, 1e-300)))
                         and list(fine.dimensions) == list(dims), "refine_conserves", case)
-                R.check(np.array_equal(img.img, arr), "input_untouched", case)
+                R.check(np.array_equal(img.img, arr) and snap_of(img.metadata()) == meta_of[id(img)], "input_untouched", case)
                 fine_before = fine.img.copy()
                 ok, back = R.guarded("uniform_refinement", lambda: darsia.uniform_refinement(fine, -levels), key=lambda e, w: "C11:coarsening_multi_level_stale_extent" if levels > 1 else None)
                 if ok:
@@ -213,7 +221,7 @@ def run_shard(spec, R):
                     good = bool(np.all(np.abs(i_c - i_in) <= rt * np.maximum(mag, 1e-300)))
                 R.check(good and list(coarse.dimensions) == list(dims), "coarsen_conserves", lambda: {**case, "out_shape": list(coarse.img.shape)},
                         key="C11:coarsening_multi_level_stale_extent" if levels > 1 else None, group=f"{dim}d/{levels}")
-                R.check(np.array_equal(img.img, arr), "input_untouched", case)
+                R.check(np.array_equal(img.img, arr) and snap_of(img.metadata()) == meta_of[id(img)], "input_untouched", case)
                 # the same image coarsened once more gives the same result, and the first result is still intact
                 first = coarse.img.copy()
                 ok, again = R.guarded("uniform_refinement", lambda: darsia.uniform_refinement(img, -levels), key=lambda e, w: "C11:coarsening_multi_level_stale_extent" if levels > 1 else None)
@@ -282,7 +290,7 @@ def run_shard(spec, R):
                             factor = (shape[ax] / dims[ax]) if mode == "sum" else (1.0 / dims[ax])
                             good &= bool(np.all(np.abs(i_out - i_in * factor) <= 10 * rt * np.maximum(mag * factor, 1e-300)))
                         R.check(good, "axis_reduction", lambda: {**case, "out_shape": list(red.img.shape), "out_dims": list(red.dimensions)}, group=f"{dim}d/{ax}/{mode}")
-                        R.check(np.array_equal(img.img, arr), "input_untouched", case)
+                        R.check(np.array_equal(img.img, arr) and snap_of(img.metadata()) == meta_of[id(img)], "input_untouched", case)
                         # the retained axes keep their place: addressing the axis by matrix index, by Cartesian name or
                         # through an AxisReduction object yields the same placement
                         place = (np.asarray(red.origin, float).tolist(), list(red.dimensions))
@@ -308,7 +316,7 @@ def run_shard(spec, R):
                     i_in, mag = integral(arr, dims, 2)
                     i_out, _ = integral(ex.img, list(ex.dimensions), 3)
                     good = bool(np.all(np.abs(i_out - height * i_in) <= 1e-12 * height * np.maximum(mag, 1e-300))) and all(np.array_equal(ex.img[k], arr) for k in range(num))
-                R.check(np.array_equal(img.img, arr), "input_untouched", case)
+                R.check(np.array_equal(img.img, arr) and snap_of(img.metadata()) == meta_of[id(img)], "input_untouched", case)
                 R.check(good, "extrusion", lambda: {**case, "out_shape": list(ex.img.shape), "out_dims": list(ex.dimensions)})
                 R.sig(["extrude", list(shape), num, payload], True, cls="extrude")
 
